@@ -6,7 +6,7 @@ TIER=${1:-quick}; shift
 SEEDS=${*:-0 2 3 7 12345}
 OUT=$(mktemp -d /tmp/quiet.XXXXXX)
 for seed in $SEEDS; do
-  for i in 01 02 03 04 05 06 07 08 09 10 11 12 13 14 15 16 17 18 19 20; do
+  for i in ${PROPS:-01 02 03 04 05 06 07 08 09 10 11 12 13 14 15 16 17 18 19 20}; do
     PYTHONHASHSEED=0 VERIF_SEED=$seed VERIF_OUT_DIR=$OUT/$seed timeout 7200 /venv/bin/python $HERE/run.py C$i --tier $TIER > $OUT/C$i.$seed.log 2>&1
     rc=$?
     [ $rc = 0 ] || { echo "seed=$seed C$i exit=$rc"; grep -h "VIOLATION\|signature=\|HARNESS\|detail" $OUT/C$i.$seed.log | head -6; }
